@@ -30,7 +30,7 @@ P = {
  "C10": ("FULL proof: a paragraph analysed inside the whole text equals its substring analysed alone for classes, levels, paragraph level (C10_slice, C10_slice_multi, C10_slice_err) and for line levels, runs and reordered lines up to the index shift (C10_lines: reorderedLevels_shift, visualRuns_shift, reorderLine_shift); single-paragraph type = multi-paragraph type on one-paragraph text incl. line queries (C10_single, C10_single_reorder_line); oracle: whole text vs each paragraph substring and ParagraphBidiInfo vs BidiInfo.", "Lean theorems + metamorphic oracle"),
  "C11": ("FULL proof: reachable-state invariant of the explicit machine (ExInv), explicit levels in [paragraph level,125], resolved <= 126, no panic, the Model's machine is the UAX #9 machine (C11_sim_step/run), balance from ANY reachable state incl. overflow (C11_balance), overflow initiators ignored (C11_overflow_ignored); the 63-bracket clause is bd16_limit / bd16_stack_le (Lemmas/C01NeutralBD16); oracle: Spec levels on deep / bracket-heavy inputs, stage correspondence via hooks.", "Lean theorems + correspondence + Spec oracle"),
  "C12": ("FULL proof: for EVERY data source the analysis is UAX #9 applied to the class and bracket values the source returns (C12_any_source, C12_any_source_single = C01 with no hypothesis at all on the data source, since the repairs of findings D9 and D10); the analysis consults the source only through cls/brk of the text's characters (C12_depends_only_on_ds); two texts with the same class/bracket values position by position are analysed identically whatever their encodings, unit lengths and scalar values (C12_unit_len_irrelevant, _single, C12_units_uniform); built-in source explicit = convenience (C12_builtin_explicit); oracle: random data sources incl. brackets of class ES/CS/ET/NSM next to BN/NSM (ds-brkcls), formatting classes on ordinary characters of every width and ordinary classes on the real formatting characters (ds-fmt), keys that real Unicode relates, the same abstract sequence through 1-unit and multi-unit alphabets.", "Lean theorems + metamorphic oracle"),
- "C13": ("FULL proof on the Spec (UAX #9 itself): matching PDI of a balanced content, paragraph level, X5c outside, explicit state restored at the PDI from any state, and C13_isolation / C13_isolation_raw: the levels of every character outside a valid LRI/RLI...PDI pair do not depend on a balanced B-free content; transfer to the crate by the C01 tie; oracle: metamorphic content replacement on the real crate (incl. initiators at levels 119-123 and pairs wrapped in outer brackets).", "Lean theorems + metamorphic oracle"),
+ "C13": ("FULL proof, on the Spec (UAX #9 itself) and carried to the Model of the crate (C13_model_single for ParagraphBidiInfo, C13_model_multi for BidiInfo with the pair inside any paragraph: every data source, every encoding; per character and per code unit; the validity hypothesis shown necessary by example). On the Spec: matching PDI of a balanced content, paragraph level, X5c outside, explicit state restored at the PDI from any state, and C13_isolation / C13_isolation_raw: the levels of every character outside a valid LRI/RLI...PDI pair do not depend on a balanced B-free content; transfer to the Model by C01 (C13Model); oracle: metamorphic content replacement on the real crate (incl. initiators at levels 119-123 and pairs wrapped in outer brackets).", "Lean theorems + metamorphic oracle"),
  "C14": ("FULL proof; translator regenerates the table model from tables.rs every run: table sorted/disjoint (kernel decision over all 1505 rows), std's binary search = order-independent lookup for every sorted table (C14_bsearch), equality with the frozen Unicode 16.0 reference for every natural number (C14_ref), format characters, version; correspondence exhaustive over all 1,112,064 scalars.", "translator + Lean theorems (decide +kernel over the whole table) + exhaustive correspondence"),
  "C15": ("FULL proof; translator regenerates the pairs table: distinctness, first-match = any-match, equality with the frozen reference for every code point (C15_ref), key structure incl. canonical equivalents (C15_keys, C15_canonical), every bracket is ON in the class table (C15_all_ON); correspondence exhaustive over all scalars.", "translator + Lean theorems + exhaustive correspondence"),
  "C16": ("FULL proof: the depth-counter scan equals P2 with BD9 matching on the first paragraph / first paragraph with a strong character (C16_first, C16_full) and agrees with the analysis' auto-detected level (C16_agree_first, C16_agree_full, C16_levels); correspondence and Spec oracle on both encodings and custom sources.", "Lean theorems + correspondence + Spec oracle"),
